@@ -55,6 +55,9 @@ def outcomes():
         ("renderer-returns-codeless-message", lambda m: (160, b"")),
         ("renderer-returns-str", lambda m: (160, b"")),
         ("renderer-is-coroutine-function", lambda m: (160, b"")),
+        ("renderer-returns-unserialisable-message", lambda m: (160, b"")),
+        ("renderer-returns-incoming-message", lambda m: (160, b"")),
+        ("renderer-returns-int-code-message", lambda m: (160, b"")),
     ]
     for cls in renderable_classes():
         out.append(("raise-renderable-" + cls.__name__, None))
@@ -105,6 +108,18 @@ def build_site(loop, hlog):
                 return aiocoap.Message(payload=("no code " + MARK).encode())
             if self.mode == "str":
                 return "not a message " + MARK
+            if self.mode == "unser":
+                # a Message with a code, but one that cannot be put on the wire (text where bytes belong)
+                return aiocoap.Message(code=aiocoap.BAD_REQUEST, payload="diagnostic that was never encoded " + MARK)
+            if self.mode == "incoming":
+                # what a forwarding resource has in hand: a response as it came in from upstream
+                m = aiocoap.Message(code=aiocoap.BAD_GATEWAY, payload=MARK.encode())
+                m.direction = aiocoap.message.Direction.INCOMING
+                return m
+            if self.mode == "intcode":
+                m = aiocoap.Message(payload=MARK.encode())
+                m.code = 128
+                return m
             return None
 
     class AsyncRenderer(error.RenderableError):
@@ -165,6 +180,12 @@ def build_site(loop, hlog):
                 raise BadRenderer("codeless")
             if name == "renderer-returns-str":
                 raise BadRenderer("str")
+            if name == "renderer-returns-unserialisable-message":
+                raise BadRenderer("unser")
+            if name == "renderer-returns-incoming-message":
+                raise BadRenderer("incoming")
+            if name == "renderer-returns-int-code-message":
+                raise BadRenderer("intcode")
             if name == "renderer-is-coroutine-function":
                 import warnings
 
